@@ -403,6 +403,12 @@ def c14_cases(tier, rng):
             conf = full_conf("avc", 600, rng)
             conf["sps"], conf["pps"] = sps, pps
             cases.append(cfg_case(n, [conf], rng)); n += 1
+    # parameter sets at and beyond the 16-bit length field of the avcC record: accepted ones must come back
+    for spsn, ppsn in ((65535, 4), (4, 65535), (65536, 4), (4, 65536), (70000, 70000)):
+        conf = full_conf("avc", 600, rng)
+        conf["sps"] = [0x67, 100, 0, 31] + [(i * 7) % 256 for i in range(spsn - 4)]
+        conf["pps"] = [0x68] + [(i * 11) % 256 for i in range(ppsn - 1)]
+        cases.append(cfg_case(n, [conf], rng)); n += 1
     for brands in ([], ["isom"], ["isom", "iso2"], ["isom", "iso2", "avc1"], ["\x00\x00\x00\x00", "zzzz", "mp41", "dash"]):
         for minor in (0, 512, 0xFFFFFFFF):
             for mts in (1, 1000, 90000, 0xFFFFFFFF):
@@ -461,6 +467,11 @@ def c17_cases(tier, rng):
             c = full_conf("avc", 1000, rng)
             c["sps"], c["pps"] = sps, pps
             add([c], [w(1)])
+    # parameter sets longer than the 16-bit length field of the avcC record
+    for spsn, ppsn in ((65536, 4), (4, 65536), (100000, 1)):
+        c = full_conf("avc", 1000, rng)
+        c["sps"], c["pps"] = [0x67, 100, 0, 31] + [1] * (spsn - 4), [0x68] * ppsn
+        add([c], [w(1)])
     # languages: empty, short, long, non-letters, non-ASCII
     # ... and every alignment of 1-, 2-, 3- and 4-byte characters (1 or 2 UTF-16 units) with the
     # byte / character / UTF-16 positions 0..3 that a three-letter code is cut from
